@@ -40,7 +40,7 @@ func (c19) Gen(r *rand.Rand, tier string, run int) *core.Case {
 	}
 	servers := 1 + r.IntN(2)
 	c.Params["servers"] = servers
-	c.Params["multi_addr"] = r.IntN(2)
+	c.Params["multi_addr"] = r.IntN(3) // 1: two addresses advertised, one answers; 2: both answer
 	c.Params["addr_order"] = r.IntN(2)
 	c.Params["subscribe"] = r.IntN(2)
 	c.Params["twin_services"] = r.IntN(2)
@@ -129,12 +129,20 @@ func (c19) Run(c *core.Case, env *core.Env) {
 			return
 		}
 		var srv bus.Server
-		if c.P("multi_addr", 0) == 1 {
+		if c.P("multi_addr", 0) >= 1 {
 			// a process that advertises two addresses, only one of which
-			// answers (services.NewServer spelled out)
+			// answers (services.NewServer spelled out) - or both of which do
 			var l net.Listener
 			var ns bus.Namespace
 			l, err = net.Listen(addr)
+			if err == nil && c.P("multi_addr", 0) == 2 {
+				var l2 net.Listener
+				l2, err = net.Listen(fmt.Sprintf("tcp://alt-srv%d:9", i))
+				if err == nil {
+					l = newTwoListeners(l, l2)
+					env.Probe("servers-reachable-at-two-addresses")
+				}
+			}
 			if err == nil {
 				eps := []string{addr, fmt.Sprintf("tcp://alt-srv%d:9", i)}
 				if c.P("addr_order", 0) == 1 {
@@ -447,6 +455,24 @@ func (c19) Check(c *core.Case, env *core.Env, res zzsim.Result, v *core.Verdict)
 			bad("more-than-one-connection", "the session holds %d open connections to %s", n, addr)
 		}
 	}
+	// ... and per remote process, whatever address it was reached at
+	peers := map[string][]string{}
+	for _, cn := range env.NW.Conns() {
+		if cn.Node() == "client" && !cn.Dead() && cn.Peer() != nil {
+			peers[cn.Peer().Node()] = append(peers[cn.Peer().Node()], cn.RemoteAddr().String())
+		}
+	}
+	for node, as := range peers {
+		if len(as) > 1 {
+			same := true
+			for _, a := range as[1:] {
+				same = same && a == as[0]
+			}
+			if !same {
+				bad("more-than-one-connection", "the session holds %d open connections to the process %s, at %v", len(as), node, as)
+			}
+		}
+	}
 	env.ProbeN("client-connections-dialled", func() int {
 		n := 0
 		for _, cn := range env.NW.Conns() {
@@ -459,4 +485,44 @@ func (c19) Check(c *core.Case, env *core.Env, res zzsim.Result, v *core.Verdict)
 	ov := overlapping(hs)
 	env.ProbeN("overlapping-op-pairs", ov)
 	v.Nontrivial = ov > 0 && v.Stats.Switches > 0
+}
+
+// twoListeners is one listener made of two: a process reachable at two
+// addresses.
+type twoListeners struct {
+	a, b    net.Listener
+	streams chan net.Stream
+	once    sync.Once
+}
+
+func newTwoListeners(a, b net.Listener) *twoListeners {
+	l := &twoListeners{a: a, b: b, streams: make(chan net.Stream)}
+	accept := func(from net.Listener) {
+		for {
+			s, err := from.Accept()
+			if err != nil {
+				return
+			}
+			l.streams <- s
+		}
+	}
+	go accept(a)
+	go accept(b)
+	return l
+}
+
+func (l *twoListeners) Accept() (net.Stream, error) {
+	s, ok := <-l.streams
+	if !ok {
+		return nil, fmt.Errorf("closed")
+	}
+	return s, nil
+}
+
+func (l *twoListeners) Close() error {
+	l.once.Do(func() {
+		l.a.Close()
+		l.b.Close()
+	})
+	return nil
 }
